@@ -65,3 +65,10 @@ class Registry:
     def external(self, path, fn, doc):
         self.externals[path] = fn
         self.k5.append(f'{path}: {doc}')
+
+
+def load_registry(modname):
+    """'contracts.rt' -> contracts.rt.registry();  'contracts.c02:registry_uid' -> that function."""
+    import importlib
+    mod, _, fn = modname.partition(':')
+    return getattr(importlib.import_module(mod), fn or 'registry')()
